@@ -223,6 +223,28 @@ theorem C15_gossip_adds_only_proven (v : View) (es : List Entry) (at_ : Atom)
   obtain ⟨p, ⟨e, ⟨he, _⟩, hc⟩, rfl⟩ := h
   exact ⟨e, he, p, hc, rfl⟩
 
+/-- **The view is updated before anything is announced and whatever is announced**: the view after
+`Connected p` is `add v p` — it does not depend on the address-book lookups or on any
+announcement — so an event arriving while the announcements are still going out (the harness
+delivers a disconnect of the same peer at that moment) meets the view that already holds `p`,
+and the view after it is the sequential one. -/
+theorem C15_connected_view_first (v : View) (p : Peer) (fails : List Nat) :
+    (step v (.connected p fails)).1 = add v p ∧
+    (step (step v (.connected p fails)).1 (.disconnected p)).1 = remove (add v p) p := by
+  exact ⟨rfl, rfl⟩
+
+/-- a peer that connects and disconnects again is not reported, whatever was reported before -/
+theorem C15_connect_then_disconnect_absent (v : View) (p : Peer) (fails : List Nat)
+    (hr : p.role = roleProvider ∨ p.role = roleBidder) :
+    isConnected (step (step v (.connected p fails)).1 (.disconnected p)).1 p.addr =
+      (if p.role = roleProvider then v.bidders.any (fun q => q.addr = p.addr)
+       else v.providers.any (fun q => q.addr = p.addr)) := by
+  have hne : roleProvider ≠ roleBidder := by decide
+  rcases hr with hr | hr
+  · simp [step, add, remove, hr, isConnected, MevCommit.Topology.insert, MevCommit.Topology.erase, List.any_filter]
+  · have : p.role ≠ roleProvider := by rw [hr]; exact fun h => hne h.symm
+    simp [step, add, remove, hr, isConnected, MevCommit.Topology.insert, MevCommit.Topology.erase, List.any_filter, hne.symm]
+
 /-- non-vacuity -/
 example : (run View.empty [.connected ⟨1, 1⟩ [], .connected ⟨2, 2⟩ [], .connected ⟨3, 1⟩ [],
     .disconnected ⟨1, 1⟩, .gossip [⟨3, none⟩, ⟨9, some ⟨7, 1⟩⟩]]).map (·.2) =
